@@ -498,6 +498,9 @@ func (w *lockWalker) stmt(s ast.Stmt, held heldSet) bool {
 		}
 		return true
 	case *ast.BranchStmt:
+		if x.Tok == token.GOTO || x.Label != nil {
+			w.unknownItem("goto / labelled branch", x)
+		}
 		if x.Tok == token.CONTINUE && len(w.cont) > 0 {
 			w.cont[len(w.cont)-1].union(held)
 		}
